@@ -79,10 +79,13 @@ Theorem C10_decoder_unmapped :
   end.
 Proof. exact decode_step_unmapped. Qed.
 
+(* an escape followed by ANY code without extension entry yields a single placeholder - octets above 0x7F and the escape code itself
+   included (3GPP TS 23.038: 1B 1B is reserved for another extension table, display a space) *)
 Theorem C10_decoder_escape_without_entry :
-  forall m x rest, x <> ESCAPE -> lookup x gsm_extended_decode_map = None ->
-  gsm_decode_loop m (x :: rest) true = rmap (cons NO_BREAK_SPACE) (gsm_decode_loop m rest false).
-Proof. exact decode_step_ext_unmapped. Qed.
+  (forall m x rest, lookup x gsm_extended_decode_map = None ->
+     gsm_decode_loop m (x :: rest) true = rmap (cons NO_BREAK_SPACE) (gsm_decode_loop m rest false))
+  /\ lookup ESCAPE gsm_extended_decode_map = None.
+Proof. split; [exact decode_step_ext_unmapped | exact escape_has_no_extension_entry]. Qed.
 
 Theorem C10_decoder_trailing_escape :
   forall m, gsm_decode_loop m [] true =
@@ -92,9 +95,9 @@ Proof. exact decode_trailing_escape. Qed.
 Theorem C10_decoder_mapped :
   (forall m b c rest, b <> ESCAPE -> lookup b gsm_basic_decode_map = Some c ->
      gsm_decode_loop m (b :: rest) false = rmap (cons c) (gsm_decode_loop m rest false))
-  /\ (forall m x c rest, x <> ESCAPE -> lookup x gsm_extended_decode_map = Some c ->
+  /\ (forall m x c rest, lookup x gsm_extended_decode_map = Some c ->
      gsm_decode_loop m (x :: rest) true = rmap (cons c) (gsm_decode_loop m rest false))
-  /\ (forall m rest esc, gsm_decode_loop m (ESCAPE :: rest) esc = gsm_decode_loop m rest true).
+  /\ (forall m rest, gsm_decode_loop m (ESCAPE :: rest) false = gsm_decode_loop m rest true).
 Proof. split; [exact decode_step_basic | split; [exact decode_step_ext | exact decode_step_escape]]. Qed.
 
 (* non-vacuity: a string mixing basic and extension characters meets the hypotheses *)
